@@ -155,7 +155,7 @@ fn owes_reply_case(raw: [u8; sv::B], raw_len: usize, reply_len: usize) {
     std::mem::forget(req);
 }
 
-// @harness name=c08_poll_input_owes_reply props=C08,C09 tier=quick timeout=1500 rmbody=ioerr,nogrow mem=20
+// @harness name=c08_poll_input_owes_reply props=C08,C09 tier=quick timeout=1500 rmbody=ioerr,nogrow,nonv,nocontend mem=20 unwindset=stream::Parser::<'_>::parse$:3;Request::<'_,.*>::poll_input$:3;Request::<'_,.*>::poll_output$:5;slab::IterMut<.*>.as.std::iter::Iterator>::next$:2;drop_glue::<.slab::Entry<.*>.>$:2
 // @bound Responder request at a record boundary, active stream Stdin; the raw region holds ONE complete record of unknown type (type 12, id symbolic) that was read earlier; the peer sends nothing more until it sees the reply: reader answers Pending (or EOF); writer accepts any split (<= 2 short writes) or Pending (<= 1). One poll of Request::poll_read.
 // @functions Request::poll_input, Request::poll_output, stream::Parser::parse, RepeatableLockFuture::poll
 #[kani::proof]
@@ -172,7 +172,7 @@ fn c08_poll_input_owes_reply() {
     owes_reply_case(raw, 8, 16);
 }
 
-// @harness name=c08_poll_input_owes_getvalues props=C08 tier=thorough timeout=7000 rmbody=ioerr,nogrow mem=24
+// @harness name=c08_poll_input_owes_getvalues props=C08 tier=thorough timeout=7000 rmbody=ioerr,nogrow,nocontend mem=24 unwindset=stream::Parser::<'_>::parse$:4;Request::<'_,.*>::poll_input$:3;Request::<'_,.*>::poll_output$:5;slab::IterMut<.*>.as.std::iter::Iterator>::next$:2;drop_glue::<.slab::Entry<.*>.>$:2
 // @bound as c08_poll_input_owes_reply, the buffered record being a GetValues query (3-byte body, symbolic name byte, 5 bytes padding); parse_name / write_response = E5 models
 // @functions Request::poll_input, Request::poll_output, stream::Parser::parse
 #[kani::proof]
@@ -224,27 +224,28 @@ fn writer_case<const N: usize>() {
     kani::cover!(g.calls >= 3, "record sent with at least two short writes");
     std::mem::forget(g);
     std::mem::forget(sw);
+    std::mem::forget(arc);
 }
 
-// @harness name=c10_writer_3 props=C10,C07 tier=quick timeout=1500 rmbody=ioerr,nogrow mem=20
+// @harness name=c10_writer_3 props=C10,C07 tier=quick timeout=1500 rmbody=ioerr,nogrow,nocontend mem=20 unwindset=StreamWriter<.*>.as.futures_util::AsyncWrite>::poll_write$:6;slab::IterMut<.*>.as.std::iter::Iterator>::next$:2;drop_glue::<.slab::Entry<.*>.>$:2
 // @bound one StreamWriter (Stdout|Stderr, any id), payload of 3 symbolic bytes (5 padding bytes), transport accepting any 1..n bytes per vectored write with <= 3 short writes (cuts inside the header, at the seams, inside the padding) and <= 1 Pending; polled to completion
 // @functions StreamWriter::poll_write, RepeatableLockFuture::poll, RecordHeader::{set_lengths,to_bytes,padding_bytes}
 #[kani::proof]
-#[kani::unwind(28)]
+#[kani::unwind(10)]
 fn c10_writer_3() { writer_case::<3>(); }
 
-// @harness name=c10_writer_8 props=C10 tier=quick timeout=1500 rmbody=ioerr,nogrow mem=20
+// @harness name=c10_writer_8 props=C10 tier=quick timeout=1500 rmbody=ioerr,nogrow,nocontend mem=20 unwindset=StreamWriter<.*>.as.futures_util::AsyncWrite>::poll_write$:6;slab::IterMut<.*>.as.std::iter::Iterator>::next$:2;drop_glue::<.slab::Entry<.*>.>$:2
 // @bound as c10_writer_3 with a payload of 8 symbolic bytes (no padding)
 // @functions StreamWriter::poll_write
 #[kani::proof]
-#[kani::unwind(28)]
+#[kani::unwind(10)]
 fn c10_writer_8() { writer_case::<8>(); }
 
-// @harness name=c10_writer_9 props=C10 tier=thorough timeout=6000 rmbody=ioerr,nogrow mem=24
+// @harness name=c10_writer_9 props=C10 tier=thorough timeout=6000 rmbody=ioerr,nogrow,nocontend mem=24 unwindset=StreamWriter<.*>.as.futures_util::AsyncWrite>::poll_write$:6;slab::IterMut<.*>.as.std::iter::Iterator>::next$:2;drop_glue::<.slab::Entry<.*>.>$:2
 // @bound as c10_writer_3 with a payload of 9 symbolic bytes (7 padding bytes)
 // @functions StreamWriter::poll_write
 #[kani::proof]
-#[kani::unwind(28)]
+#[kani::unwind(11)]
 fn c10_writer_9() { writer_case::<9>(); }
 
 // ------------------------------------------------------------------------------------------------ C09 / C12: async reads
@@ -255,7 +256,7 @@ fn stdin_trace(id: u16, pl: [u8; 3]) -> [u8; sv::B] {
     [1, 5, h, l, 0, 3, 5, 0, pl[0], pl[1], pl[2], 0, 0, 0, 0, 0, 1, 5, h, l, 0, 0, 0, 0]
 }
 
-// @harness name=c09_read_buffered_trace props=C09,C02 tier=quick timeout=1800 rmbody=ioerr,nogrow mem=20
+// @harness name=c09_read_buffered_trace props=C09,C02 tier=quick timeout=1800 rmbody=ioerr,nogrow,nonv,nocontend mem=20 unwindset=stream::Parser::<'_>::parse$:4;Request::<'_,.*>::poll_input$:3;Request::<'_,.*>::poll_output$:5;slab::IterMut<.*>.as.std::iter::Iterator>::next$:2;drop_glue::<.slab::Entry<.*>.>$:2
 // @bound Responder, Stdin active; the 24-byte buffer already holds [Stdin(3 symbolic bytes, pad 5) | Stdin terminator]; three consecutive poll_read calls with caller buffers of symbolic length 0..4, 4, 4; the transport is never needed
 // @functions Request::poll_read, Request::poll_input, stream::Parser::parse, consume_stream
 #[kani::proof]
@@ -291,7 +292,7 @@ fn c09_read_buffered_trace() {
     std::mem::forget(req);
 }
 
-// @harness name=c12_read_eof_midstream props=C12,C09 tier=quick timeout=1800 rmbody=ioerr,nogrow mem=20
+// @harness name=c12_read_eof_midstream props=C12,C09 tier=quick timeout=1800 rmbody=ioerr,nogrow,nonv,nocontend mem=20 unwindset=stream::Parser::<'_>::parse$:4;Request::<'_,.*>::poll_input$:3;Request::<'_,.*>::poll_output$:5;slab::IterMut<.*>.as.std::iter::Iterator>::next$:2;drop_glue::<.slab::Entry<.*>.>$:2
 // @bound Responder, Stdin active, buffer holds a Stdin header announcing 3 bytes plus 0..2 of them (symbolic); the transport then reports EOF (or an error) after <= 1 Pending: the handler's read must fail (UnexpectedEof / the transport's error), never succeed with 0 bytes
 // @functions Request::poll_read, Request::poll_input
 #[kani::proof]
@@ -333,3 +334,155 @@ fn c12_read_eof_midstream() {
     kani::cover!(got == 0 && have == 0, "fault right after the record header");
     std::mem::forget(req);
 }
+
+// ------------------------------------------------------------------------------------------------ C13: connection tokens (sequential histories only)
+
+// @harness name=c13_tokens_limit1 props=C13 tier=quick timeout=1800 mem=20
+// @bound connection limit 1, runner + one clone; sequential history: acquire (must be immediate), second acquire on the clone (must wait), drop the pending request OR keep it (symbolic), drop the first token, acquire again. No thread interleavings (Kani executes atomics sequentially)
+// @functions Runner::get_token, Runner::clone, Config::async_runner, Token drop (SemaphoreGuardArc), async_lock::Semaphore::acquire_arc
+#[kani::proof]
+#[kani::unwind(6)]
+fn c13_tokens_limit1() {
+    let cfg = Config { buffer_size: 24, max_conns: std::num::NonZeroUsize::new(1).unwrap() };
+    let runner = cfg.async_runner();
+    let clone = runner.clone();
+    let mut cx = noop_cx();
+    let t1 = {
+        let f = runner.get_token();
+        futures_util::pin_mut!(f);
+        match f.poll(&mut cx) { Poll::Ready(t) => t, Poll::Pending => panic!("C13: a free slot was not handed out immediately") }
+    };
+    {
+        let f2 = clone.get_token();
+        futures_util::pin_mut!(f2);
+        assert!(f2.as_mut().poll(&mut cx).is_pending(), "C13: second token handed out beyond the connection limit");
+        if kani::any() {
+            drop(t1);
+            match f2.as_mut().poll(&mut cx) { Poll::Ready(t) => std::mem::forget(t), Poll::Pending => panic!("C13: freed slot not handed to the waiting request") }
+            kani::cover!(true, "waiter served after the token was dropped");
+            return;
+        }
+        // the queued request is cancelled
+    }
+    drop(t1);
+    let f3 = runner.get_token();
+    futures_util::pin_mut!(f3);
+    match f3.poll(&mut cx) { Poll::Ready(t) => std::mem::forget(t), Poll::Pending => panic!("C13: slot stranded after a cancelled request and a dropped token") }
+    kani::cover!(true, "slot reusable after a cancelled waiter");
+}
+
+// ------------------------------------------------------------------------------------------------ C08: parse_request / record_boundary
+
+fn poll_once<F: Future>(f: Pin<&mut F>) -> Poll<F::Output> { let mut cx = noop_cx(); f.poll(&mut cx) }
+
+// @harness name=c08_parse_request_buffered props=C08,C07 tier=quick timeout=1800 rmbody=ioerr,nogrow,nonv,noparams mem=20 unwindset=request::State::drive$:3
+// @bound a request parser that was handed 8 already-buffered bytes = ONE complete record of unknown type 12 (symbolic id) by the previous request (into_request_parser); the peer sends nothing more until it sees the reply: reader Pending; writer accepts everything. One poll of Token::parse_request.
+// @functions Token::parse_request, request::Parser::{parse,input_buffer}
+#[kani::proof]
+#[kani::unwind(18)]
+#[kani::stub(std::hash::RandomState::new, fixed_random_state)]
+#[kani::stub(fcgi::ProtocolVariables::parse_name, crate::verif_kani::parse_name_model)]
+#[kani::stub(fcgi::ProtocolVariables::write_response, crate::verif_kani::write_response_model)]
+fn c08_parse_request_buffered() {
+    let cfg = sv::cfg1();
+    let mut buf = [0u8; sv::B];
+    let rec = unknown_record(12, kani::any());
+    let mut i = 0; while i < 8 { buf[i] = rec[i]; i += 1; }
+    let parser = crate::parser::request::verif_kani::mk_header_parser(&cfg, buf, 8);
+    let mut r = MockR::new([0; RN], 0, 1);
+    let mut w = MockW::new(0, 0);
+    {
+        // never dropped (the drop glue of the suspended state machine is irrelevant and expensive)
+        let mut fut = std::mem::ManuallyDrop::new(Token::parse_request(parser, &mut r, &mut w));
+        let pinned = unsafe { Pin::new_unchecked(&mut *fut) };
+        match poll_once(pinned) {
+            Poll::Pending => {}
+            Poll::Ready(res) => { std::mem::forget(res); kani::cover!(true, "reader reported EOF"); return; }
+        }
+    }
+    // the task is now suspended waiting for the client, which in turn waits for the reply to its record
+    assert!(r.last_pending);
+    assert!(w.len == 16, "C08:buffered-record-unprocessed-at-read-pending: parse_request waits for client input although a complete record handed over by the previous request has not been processed/answered");
+    kani::cover!(true, "suspended on the reader");
+}
+
+// ------------------------------------------------------------------------------------------------ C07 / C11: Request::close
+
+fn close_case(keep_conn: bool, writeable: bool, pending_out: usize, raw_extra: usize) {
+    let cfg = sv::cfg1();
+    let id: u16 = kani::any();
+    kani::assume(id != 0);
+    let mut raw = [0u8; sv::B];
+    // look-ahead already buffered: `raw_extra` bytes of the NEXT request (must survive the hand-off)
+    let extra: [u8; 4] = kani::any();
+    let mut i = 0; while i < raw_extra { raw[i] = extra[i]; i += 1; }
+    let mut out = Vec::with_capacity(32);
+    let mut i = 0; while i < pending_out { out.push(0xD0 + i as u8); i += 1; }
+    let role = fcgi::Role::Responder;
+    // at a record boundary, active stream already past its end is modelled by stream = None + writeable
+    let mut parser = sv::mk_code(&cfg, raw, (0, 0, 0, raw_extra), 1, role, id, None, 0, 0, out, 0);
+    parser.request.flags = fcgi::RequestFlags::from(if keep_conn { 1 } else { 0 });
+    let w = MockW::new(1, 2);
+    let req = Request { parser, input: MockR::new([0; RN], 0, 0), output: Arc::new(Mutex::new(w)), lock: None, writeable };
+    let status = match kani::any::<u8>() % 3 { 0 => ExitStatus::Complete(kani::any()), 1 => ExitStatus::Overloaded, _ => ExitStatus::UnknownRole };
+    let (ps, app) = match status { ExitStatus::Complete(c) => (0u8, c), ExitStatus::Overloaded => (2, 0), ExitStatus::UnknownRole => (3, 0) };
+    let mut fut = std::mem::ManuallyDrop::new(req.close(status));
+    let mut polls = 0;
+    let res = loop {
+        let pinned = unsafe { Pin::new_unchecked(&mut *fut) };
+        match poll_once(pinned) { Poll::Ready(r) => break r, Poll::Pending => { polls += 1; assert!(polls <= 1, "only the writer may make close() wait, once"); } }
+    };
+    let check_log = |w: &MockW| {
+        let streams = if writeable { 2 } else { 0 };
+        assert!(w.len == pending_out + 8 * streams + 16, "C07: bytes written at request end are not [pending replies] + [stream ends] + EndRequest");
+        let mut i = 0; while i < pending_out { assert!(w.log[i] == 0xD0 + i as u8, "C07: pending management replies must be written first, unchanged"); i += 1; }
+        let mut o = pending_out;
+        if writeable {
+            assert!(w.log[o] == 1 && w.log[o + 1] == 6 && w.log[o + 2] == (id >> 8) as u8 && w.log[o + 3] == id as u8 && w.log[o + 4] == 0 && w.log[o + 5] == 0 && w.log[o + 6] == 0, "C07: empty Stdout record missing/wrong");
+            assert!(w.log[o + 8] == 1 && w.log[o + 9] == 7 && w.log[o + 10] == (id >> 8) as u8 && w.log[o + 11] == id as u8 && w.log[o + 12] == 0 && w.log[o + 13] == 0 && w.log[o + 14] == 0, "C07: empty Stderr record missing/wrong");
+            o += 16;
+        }
+        let a = app.to_be_bytes();
+        assert!(w.log[o] == 1 && w.log[o + 1] == 3 && w.log[o + 2] == (id >> 8) as u8 && w.log[o + 3] == id as u8 && w.log[o + 4] == 0 && w.log[o + 5] == 8 && w.log[o + 6] == 0, "C07: EndRequest header wrong");
+        assert!(w.log[o + 8] == a[0] && w.log[o + 9] == a[1] && w.log[o + 10] == a[2] && w.log[o + 11] == a[3] && w.log[o + 12] == ps, "C07: EndRequest does not carry the handler's exit status");
+    };
+    match res {
+        Ok((rp, _r, w)) => {
+            assert!(keep_conn, "C07: connection reused although the request did not set the keep-connection flag");
+            check_log(&w);
+            let (il, cap, is_header, out_empty) = crate::parser::request::verif_kani::x_parser(&rp);
+            assert!(il == raw_extra && cap == sv::B && is_header && out_empty, "C05/C07: next request parser must start with exactly the look-ahead bytes");
+            let mut i = 0; while i < raw_extra { assert!(crate::parser::request::verif_kani::x_byte(&rp, i) == extra[i], "look-ahead bytes changed"); i += 1; }
+            kani::cover!(true, "connection reused");
+            std::mem::forget(rp); std::mem::forget(w);
+        }
+        Err(e) => {
+            assert!(!keep_conn, "C07: connection dropped although keep-connection was requested and no I/O error occurred");
+            assert!(e.kind() == io::ErrorKind::ConnectionReset);
+            std::mem::forget(e);
+            kani::cover!(true, "connection closed after the request");
+        }
+    }
+}
+
+// @harness name=c07_close_keep_writeable props=C07,C05,C11 tier=quick timeout=1800 rmbody=ioerr,nogrow,nonv,nocontend mem=20 unwindset=stream::Parser::<'_>::parse$:3;Request::<'_,.*>::poll_input$:3;Request::<'_,.*>::poll_output$:5;slab::IterMut<.*>.as.std::iter::Iterator>::next$:2;drop_glue::<.slab::Entry<.*>.>$:2
+// @bound Request::close at a record boundary, writeable, KeepConn set, 2 bytes of pending management replies, 3 bytes of look-ahead for the next request; every ExitStatus (all u32 app statuses) and request id; writer accepting any split (<= 2 short writes) and <= 1 Pending
+// @functions Request::close, Request::writeable, Request::record_boundary, make_request_epilogue, stream::Parser::into_request_parser
+#[kani::proof]
+#[kani::unwind(42)]
+#[kani::stub(std::hash::RandomState::new, fixed_random_state)]
+#[kani::stub(fcgi::ProtocolVariables::parse_name, crate::verif_kani::parse_name_model)]
+#[kani::stub(fcgi::ProtocolVariables::write_response, crate::verif_kani::write_response_model)]
+#[kani::stub(alloc::fmt::format, crate::verif_kani::fmt_format_stub)]
+fn c07_close_keep_writeable() { close_case(true, true, 2, 3); }
+
+// @harness name=c07_close_nokeep props=C07 tier=quick timeout=1800 rmbody=ioerr,nogrow,nonv,nocontend mem=20 unwindset=stream::Parser::<'_>::parse$:3;Request::<'_,.*>::poll_input$:3;Request::<'_,.*>::poll_output$:5;slab::IterMut<.*>.as.std::iter::Iterator>::next$:2;drop_glue::<.slab::Entry<.*>.>$:2
+// @bound as above without KeepConn, no pending replies, no look-ahead
+// @functions Request::close, make_request_epilogue
+#[kani::proof]
+#[kani::unwind(42)]
+#[kani::stub(std::hash::RandomState::new, fixed_random_state)]
+#[kani::stub(fcgi::ProtocolVariables::parse_name, crate::verif_kani::parse_name_model)]
+#[kani::stub(fcgi::ProtocolVariables::write_response, crate::verif_kani::write_response_model)]
+#[kani::stub(alloc::fmt::format, crate::verif_kani::fmt_format_stub)]
+fn c07_close_nokeep() { close_case(false, true, 0, 0); }
